@@ -6,10 +6,11 @@ mod chain;
 mod gen;
 mod mintable;
 mod oracle;
+mod scenarios;
 
 fn gen_cases(prop: &str, rng: &mut Rng, tier: &str, outdir: &str) -> Vec<Line> {
   let thorough = tier == "thorough";
-  let mut v = Vec::new();
+  let mut v = scenarios::all();
   let mut feats = gen::Features::new();
   // (profile, quick count, thorough count)
   let plan: Vec<(gen::Profile, usize, usize)> = match prop {
